@@ -270,10 +270,13 @@ pub fn solve<F: Function>(
             let adjusted = &jt_j
                 + damping * nalgebra::DMatrix::from_diagonal(&jt_j.diagonal());
 
-            let delta = adjusted
-                .svd(true, true)
-                .solve(&jt_r, f32::EPSILON)
-                .map_err(SingularMatrix)?;
+            // Singular values are compared against a threshold relative to
+            // the largest one, so that uniformly scaling every equation
+            // (e.g. working in small units) does not change which directions
+            // count as singular.
+            let svd = adjusted.svd(true, true);
+            let eps = f32::EPSILON * svd.singular_values.max();
+            let delta = svd.solve(&jt_r, eps).map_err(SingularMatrix)?;
 
             let err = solver.get_err(&cur, delta.as_slice());
             #[cfg(fidget_verif)]
